@@ -169,6 +169,66 @@ pub fn probe(args: &Args) {
             push(v, &mut names);
         }
     }
+    // ---- table-search boundaries.  Whatever the compiled layout, a lookup walks from a parent to one of its
+    // children by searching a sorted range: probe every parent with labels that sort before all / after all /
+    // directly before and after its children, and with the first and last child labels of the parents that are its
+    // neighbours in sorted order (the ranges a search could run into when it leaves its own).
+    {
+        use std::collections::BTreeMap;
+        // parent (labels from the TLD down) -> child labels
+        let mut kids: BTreeMap<Vec<String>, Vec<String>> = BTreeMap::new();
+        for (_k, r) in &all {
+            let rev: Vec<String> = r.iter().rev().cloned().collect();
+            for i in 0..rev.len() {
+                kids.entry(rev[..i].to_vec()).or_default().push(rev[i].clone());
+            }
+        }
+        for v in kids.values_mut() {
+            v.sort();
+            v.dedup();
+        }
+        let parents: Vec<&Vec<String>> = kids.keys().collect();
+        let mut by_depth: BTreeMap<usize, Vec<usize>> = BTreeMap::new();
+        for (i, p) in parents.iter().enumerate() {
+            by_depth.entry(p.len()).or_default().push(i);
+        }
+        let reach = if thorough { 4 } else { 2 };
+        for idxs in by_depth.values() {
+            for (pos, &pi) in idxs.iter().enumerate() {
+                let parent = parents[pi];
+                let cs = &kids[parent];
+                let mut probes: Vec<String> = vec!["0".into(), "zzzzzzzz".into()];
+                let pick: Vec<usize> = if cs.len() <= 4 || thorough { (0..cs.len()).collect() } else { vec![0, 1, cs.len() / 2, cs.len() - 2, cs.len() - 1] };
+                for i in pick {
+                    probes.push(format!("{}0", cs[i]));
+                    if cs[i].len() > 1 {
+                        probes.push(cs[i][..cs[i].len() - 1].to_string());
+                    }
+                }
+                for d in 1..=reach {
+                    for q in [pos.checked_sub(d), Some(pos + d)].into_iter().flatten() {
+                        if let Some(&ni) = idxs.get(q) {
+                            let ncs = &kids[parents[ni]];
+                            probes.push(ncs[0].clone());
+                            probes.push(ncs[ncs.len() - 1].clone());
+                        }
+                    }
+                }
+                probes.sort();
+                probes.dedup();
+                for l in probes {
+                    if l.is_empty() || l == "*" {
+                        continue;
+                    }
+                    let mut v: Vec<String> = parent.iter().rev().cloned().collect();
+                    v.insert(0, l);
+                    push(v.clone(), &mut names);
+                    v.insert(0, "w".into());
+                    push(v, &mut names);
+                }
+            }
+        }
+    }
     let canon = names.len();
     for n in &names {
         out.emit(observe("canon", n));
@@ -182,7 +242,19 @@ pub fn probe(args: &Args) {
         format!("{}.com", "a".repeat(10_000)), vec!["a"; 5000].join("."), ".".repeat(10_000),
         format!("{}uk", "co.".repeat(3000)), "\"quoted\".com".into(), "back\\slash.co.uk".into(),
     ];
-    let narb = args.num("arbitrary", if thorough { 100_000 } else { 5_000 }) as usize;
+    // empty labels around every wildcard and exception rule, and around a sample of the others
+    for (k, r) in &all {
+        if *k != 0 || rng.gen_range(0..if thorough { 2 } else { 20 }) == 0 {
+            let base = r.join(".");
+            any.push(format!(".{base}"));
+            any.push(format!("{base}."));
+            any.push(format!("a..{base}"));
+            if r.len() > 1 {
+                any.push(format!("{}..{}", r[0], r[1..].join(".")));
+            }
+        }
+    }
+    let narb = any.len() + args.num("arbitrary", if thorough { 100_000 } else { 5_000 }) as usize;
     while any.len() < narb {
         let (_k, r) = all.choose(&mut rng).unwrap();
         let base = r.join(".");
